@@ -738,6 +738,26 @@ class PathCtx:
         r, _ = self._check(z3.Not(t), timeout_ms=self.branch_timeout_ms)
         return r == z3.unsat
 
+    def quick_entails(self, t, timeout_ms=60):
+        """opportunistic entailment test (z3 only, tiny budget, no second back end): used where a positive answer merely
+        allows a simpler representation and a negative/unknown answer costs nothing"""
+        t = z3.simplify(tb(t))
+        if z3.is_true(t):
+            return True
+        if z3.is_false(t):
+            return False
+        t0 = time.time()
+        self.solver.push()
+        try:
+            self.solver.add(z3.Not(t))
+            self.solver.set("timeout", timeout_ms)
+            r = self.solver.check()
+        finally:
+            self.solver.set("timeout", self.timeout_ms)
+            self.solver.pop()
+        self.solver_s += time.time() - t0
+        return r == z3.unsat
+
     def feasible(self, t=None):
         r, _ = self._check(*([] if t is None else [tb(t)]), timeout_ms=self.branch_timeout_ms)
         return r != z3.unsat
